@@ -17,6 +17,10 @@ TRANSFORMS = [
     ("od -c", [], "expand"),
     ("od -An -tx1", [], "expand"),
     ("tr a-m A-M", [], "keep"),
+    # fails (after writing the converted part) on files that contain a byte >= 0x80: in text worlds these
+    # are the near-duplicates whose flipped byte left the ASCII range - a transform that works for some
+    # files and fails for others
+    ("iconv -f ascii -t utf-8", [], "keep"),
     ("cat $IN", [], "keep"),
     ("head -c 33 $IN", [], "shrink"),
     ("base64 $IN", [], "expand"),
